@@ -267,8 +267,8 @@ func scan(in string) []tok {
 			} else {
 				j := i + 1
 				for j < len(in) && in[j] != '"' && in[j] != '\n' && in[j] != '\r' {
-					if in[j] == '\\' && j+1 < len(in) {
-						j++
+					if in[j] == '\\' && j+1 < len(in) && in[j+1] != '\n' && in[j+1] != '\r' {
+						j++ // a line break ends the string even behind a backslash
 					}
 					j++
 				}
@@ -306,6 +306,31 @@ func scan(in string) []tok {
 
 var opKeywords = map[string]bool{"query": true, "mutation": true, "subscription": true, "fragment": true}
 
+const classShortBlankLine = "whitespace-only line shorter than the common indent"
+
+// hasShortBlankLine: some line after the first is not empty, consists of blanks
+// and tabs only and is shorter than the common indent (spec: of the lines
+// after the first that are not white space only).
+func hasShortBlankLine(inner string) bool {
+	lines := strings.Split(strings.ReplaceAll(strings.ReplaceAll(inner, "\r\n", "\n"), "\r", "\n"), "\n")
+	common := -1
+	for i, l := range lines {
+		if i == 0 {
+			continue
+		}
+		ind := len(l) - len(strings.TrimLeft(l, " \t"))
+		if ind < len(l) && (common < 0 || ind < common) {
+			common = ind
+		}
+	}
+	for i, l := range lines {
+		if i > 0 && l != "" && strings.Trim(l, " \t") == "" && len(l) < common {
+			return true
+		}
+	}
+	return false
+}
+
 func blockInner(t tok) string {
 	in := strings.TrimPrefix(t.text, `"""`)
 	in = strings.TrimSuffix(in, `"""`)
@@ -338,6 +363,34 @@ func classify(f failure, min string) (site, class string) {
 	}
 	isP := func(t tok, p string) bool { return t.kind == tkPunct && t.text == p }
 	isW := func(t tok, w string) bool { return t.kind == tkWord && t.text == w }
+	// A block string with a non-empty white-space-only line (after the first)
+	// that is shorter than the common indent of the other lines: its own class,
+	// checked before every other block string recogniser so that none of them
+	// can absorb it.
+	if f.Clause == clauseRT || (f.Clause == clauseInside && strings.HasPrefix(f.Site, siteBlockValue)) {
+		for _, t := range toks {
+			if t.kind == tkBlockString && hasShortBlankLine(blockInner(t)) {
+				if f.Clause == clauseInside {
+					return f.Site, classShortBlankLine
+				}
+				return "block string", classShortBlankLine
+			}
+		}
+	}
+	if f.Clause == clauseInside && strings.HasPrefix(f.Site, siteBlockValue) {
+		for _, t := range toks {
+			if t.kind == tkBlockString && blockInner(t) != "" && strings.Trim(blockInner(t), " \t\r\n") == "" {
+				return f.Site, "white-space-only block string"
+			}
+		}
+	}
+	if f.Clause == clauseRT {
+		for i, t := range toks {
+			if t.kind == tkBlockString && !isValueString(toks, i) && strings.Contains(blockInner(t), "\r") {
+				return "block string description", "carriage return as line terminator inside a block description"
+			}
+		}
+	}
 	switch f.Clause {
 	case clauseLimits:
 		for _, t := range toks {
@@ -380,6 +433,11 @@ func classify(f failure, min string) (site, class string) {
 					return "block string value", "white space next to a delimiter"
 				}
 				return "block string description", "indentation of the first line relative to the later lines"
+			}
+		}
+		for _, t := range toks {
+			if t.kind == tkString && len(t.text) >= 2 && strings.HasSuffix(t.text, "\\") && (t.end == len(min) || min[t.end] == '\n' || min[t.end] == '\r') {
+				return "quoted string", "quoted string ended by a line break (or the end of input) whose content ends with a backslash"
 			}
 		}
 		for i, t := range toks {
